@@ -215,4 +215,57 @@ Proof.
     repeat rewrite HT; auto.
   all: intros; try rewrite HT; auto.
 Qed.
+
+Lemma stale_absent st x y : files st y = Absent -> stale st x y = true.
+Proof. intros H. unfold stale. rewrite H. reflexivity. Qed.
+
+Ltac fs :=
+  repeat (rewrite upd_same || (rewrite upd_other by congruence)).
+
+Lemma step_proc_own st p q :
+  procs st p = Some q ->
+  final_ok (pform q) (files st (Final So (pform q))) ->
+  proc_inv st p q ->
+  forall q', procs (step_proc New orc st p q) p = Some q' ->
+  proc_inv (step_proc New orc st p q) p q'.
+Proof.
+  destruct q as [n c g]. unfold step_proc; simpl. intros HP HF HI q'.
+  destruct c as [| |r w| | | |o].
+  - (* PImport *)
+    unfold proc_inv in HI; simpl in HI. unfold load.
+    destruct (files st (Final So n)) as [|k c|c] eqn:E; simpl in HF.
+    + unfold goto, setproc; simpl; rewrite Nat.eqb_refl. intros H; inversion H; subst; clear H.
+      unfold proc_inv; simpl. auto.
+    + destruct HF as [HF|[HF1 HF2]]; [rewrite HF|rewrite HF1];
+        unfold goto, setproc; simpl; rewrite Nat.eqb_refl; intros H; inversion H; subst; clear H;
+        unfold proc_inv; simpl; auto.
+    + subst c. unfold goto, setproc; simpl; rewrite Nat.eqb_refl. intros H; inversion H; subst; clear H.
+      unfold proc_inv; simpl. auto.
+  - unfold goto, setproc; simpl; rewrite Nat.eqb_refl. intros H; inversion H; subst; clear H.
+    unfold proc_inv in *; simpl in *. auto.
+  - (* the four build stages *)
+    unfold proc_inv in HI; simpl in HI.
+    destruct r, w; unfold stage, begin, goto; simpl;
+      repeat match goal with
+             | H : _ /\ _ |- _ => destruct H
+             end;
+      repeat match goal with
+             | H : files st ?x = _ |- context [files st ?x] => rewrite H
+             end;
+      repeat (rewrite stale_absent by (auto; fail));
+      unfold setproc; simpl; rewrite Nat.eqb_refl; intros H'; inversion H'; subst; clear H';
+      unfold proc_inv; simpl; fs; auto.
+  - (* PReplace *)
+    unfold proc_inv in HI; simpl in HI.
+    unfold goto, setproc; simpl; rewrite Nat.eqb_refl. intros H; inversion H; subst; clear H.
+    unfold proc_inv; simpl. fs. auto.
+  - unfold proc_inv in HI; simpl in HI.
+    unfold goto, setproc; simpl; rewrite Nat.eqb_refl. intros H; inversion H; subst; clear H.
+    unfold proc_inv; simpl. auto.
+  - unfold proc_inv in HI; simpl in HI. rewrite HI. simpl.
+    unfold goto, setproc; simpl; rewrite Nat.eqb_refl. intros H; inversion H; subst; clear H.
+    unfold proc_inv; simpl. auto.
+  - intros H. unfold proc_inv in *; simpl in *.
+    assert (q' = mkproc n (PDone o) g) by congruence. subst q'. simpl. auto.
+Qed.
 End NewProtocol.
